@@ -395,6 +395,38 @@ func init() {
 			e.trace = append(e.trace, "T:"+strArg(a[0]))
 			return nil
 		},
+		"H.nondetOneOf": func(e *Exec, th *Thread, a []Value) Value {
+			tag := strArg(a[0])
+			lits := strings.Split(strArg(a[1]), "|")
+			k := e.fresh("nd."+tag, 8)
+			e.assume(BVCmp("bvult", k, BVC(8, uint64(len(lits)))))
+			e.nondets = append(e.nondets, NondetRec{Tag: tag, Kind: "int", terms: []*Term{k}})
+			maxLen := 0
+			for _, l := range lits {
+				if len(l) > maxLen {
+					maxLen = len(l)
+				}
+			}
+			n := IntC(int64(len(lits[len(lits)-1])))
+			for i := len(lits) - 2; i >= 0; i-- {
+				n = Ite(Eq(k, BVC(8, uint64(i))), IntC(int64(len(lits[i]))), n)
+			}
+			b := make([]*Term, maxLen)
+			at := func(l string, j int) *Term {
+				if j < len(l) {
+					return BVC(8, uint64(l[j]))
+				}
+				return BVC(8, 0)
+			}
+			for j := 0; j < maxLen; j++ {
+				t := at(lits[len(lits)-1], j)
+				for i := len(lits) - 2; i >= 0; i-- {
+					t = Ite(Eq(k, BVC(8, uint64(i))), at(lits[i], j), t)
+				}
+				b[j] = t
+			}
+			return &StrV{n: n, b: b}
+		},
 		"H.vStrHas": func(e *Exec, th *Thread, a []Value) Value {
 			s := a[0].(*StrV)
 			c := a[1].(*Term)
